@@ -384,6 +384,19 @@ def broadcast_evals(rnd, tier):
     return progs
 
 
+def mixed_type_arith(rnd, tier):
+    """C06: every operator between two files that hold the same variables in
+    different storage types (int16 / int32, float32 / float64), narrower on
+    the left and on the right."""
+    ops = ['+', '-', '*', '/', '//', '%', '<', '<=', '>', '>=', '==', '!=']
+    progs = []
+    for a, b in (('T12', 'T13'), ('T13', 'T12')):
+        progs.append({'templates': [a, b], 'steps': [
+            {'act': 'arith', 'src': 1, 'others': [2], 'args': {'op': op}}
+            for op in ops]})
+    return progs
+
+
 def mixed_arith(rnd, tier):
     """C06: every operator between a file of plain (never masked) variables
     and a masked version of it, in both operand orders."""
@@ -492,6 +505,7 @@ def run(prop, tier, extra=None):
     if prop == 'C06':
         progs += mask_codes(rnd, tier)
         progs += mixed_arith(rnd, tier)
+        progs += mixed_type_arith(rnd, tier)
         progs += derived_types(rnd, tier)
         progs += broadcast_evals(rnd, tier)
     if prop == 'C04':
